@@ -23,8 +23,12 @@ import (
 
 func init() {
 	register("C12", "every exported stdlib function (list regenerated from the source) x wholly known unmarked in-domain argument lists on which the real call succeeds "+
-		"x 3 weakenings each of arguments and nested members to typed unknowns true of the replaced part (unrefined / not-null / numeric bounds at and next to the value, inclusive and exclusive / "+
-		"true string prefixes / length bounds around the length); predicate = Lean judgeSound via the driver on the two real outcomes; "+
+		"x weakenings of arguments and nested members to typed unknowns true of the replaced part (unrefined / not-null / numeric bounds at and next to the value, inclusive and exclusive / "+
+		"true string prefixes / length bounds around the length): (a) random arguments x 3 random weakenings; (b) for every function with a collection, structural or dynamically typed parameter, "+
+		"structured arguments (every collection argument with 2-3 members, member collections with 1-2, often one type for all dynamically typed parameters, format strings with one verb per argument, in-range indices and present keys) "+
+		"x SYSTEMATIC weakenings: an unknown member at each position of each collection argument, at each position one level further down, the same position in all collection arguments at once, "+
+		"a pair of positions in two arguments, one argument wholly unknown and refined next to a partly unknown one; (c) witnesses of repaired defects first; "+
+		"predicate = Lean judgeSound via the driver on the two real outcomes; per-function counts (pairs, with a nested unknown, weakened call ok, … with a known result) are in the distribution; "+
 		"non-trivial = at least one position weakened and the concrete call succeeded; distinct = distinct (function, concrete args, weakened args) wire strings", runC12)
 }
 
@@ -84,6 +88,8 @@ func c12Outcome(v cty.Value, err error, panicked bool) string {
 	return "(ok " + encVal(v) + ")"
 }
 
+type c12FnStat struct{ pairs, nested, wok, wunk, cfail int }
+
 type c12Pending struct {
 	fn       string
 	os, ws   []cty.Value
@@ -99,6 +105,80 @@ func runC12(ctx *Ctx) {
 	fns := c11Funcs()
 	per := ctx.N(60, 1500)
 	var pend []c12Pending
+	stat := map[string]*c12FnStat{}
+	fstat := func(n string) *c12FnStat {
+		if stat[n] == nil {
+			stat[n] = &c12FnStat{}
+		}
+		return stat[n]
+	}
+	// one paired run: the real call on the weakened arguments, queued for the Lean judge
+	pair := func(fn c11Fn, args []cty.Value, ro cty.Value, ws []cty.Value, st *wkStats, scheme string) {
+		var rw cty.Value
+		var ew error
+		pw, pmsg := try(func() { rw, ew = fn.f.Call(ws) })
+		if !pw && ew == nil && c12CostlySet(rw) {
+			// the set clause of Covers is decided by search (a surjection of members): exponential in the
+			// number of partly unknown members; such results are counted, not judged
+			ctx.Tag("not-judged:partly-unknown-set-result-with-more-than-6-members")
+			return
+		}
+		line := "judge.c12 " + c11Wire(args) + " " + c11Wire(ws) + " " + c12Outcome(ro, nil, false) + " " + c12Outcome(rw, ew, pw)
+		pend = append(pend, c12Pending{fn.name, args, ws, ro, rw, nil, ew, false, pw, st, line, pmsg})
+		fs := fstat(fn.name)
+		fs.pairs++
+		if c12NestedUnknown(ws) {
+			fs.nested++
+		}
+		if !pw && ew == nil {
+			fs.wok++
+			if !rw.IsKnown() {
+				fs.wunk++
+			}
+		}
+		ctx.Tag("scheme:" + scheme)
+		// correspondence: the modelled Impl/Type callbacks (Stdlib/*.lean, written for C13 and exercised there on
+		// wholly known arguments only) against the real function on the WEAKENED arguments — their unknown branches
+		if mn, ok := c12Modelled[fn.name]; ok {
+			if p, _ := try(func() { c13Case(ctx, mn, ws, false) }); p {
+				ctx.Tag("correspondence:oracle-panic")
+			}
+		}
+	}
+	concrete := func(fn c11Fn, args []cty.Value) (cty.Value, bool) {
+		for _, a := range args {
+			if !a.IsWhollyKnown() {
+				return cty.NilVal, false
+			}
+		}
+		var ro cty.Value
+		var eo error
+		po, _ := try(func() { ro, eo = fn.f.Call(args) })
+		if po || eo != nil {
+			ctx.Tag("concrete:fails")
+			fstat(fn.name).cfail++
+			return cty.NilVal, false
+		}
+		ctx.Tag("concrete:ok")
+		if !ro.IsWhollyKnown() {
+			ctx.Fail(Failure{Site: "known-in-known-out", Sig: "spontaneous-unknown:" + fn.name, What: "all arguments are wholly known but the result is not",
+				Input: fn.name + " " + c11Wire(args), GoLit: "stdlib." + fn.name + ".Call(" + c11GoArgs(args) + ")", Outcome: ro.GoString()})
+		}
+		return ro, true
+	}
+	byName := map[string]c11Fn{}
+	for _, fn := range fns {
+		byName[fn.name] = fn
+	}
+	// case 0: witnesses of repaired defects must pass
+	for _, rg := range c12Regressions() {
+		fn := byName[rg.fn]
+		if ro, ok := concrete(fn, rg.os); ok {
+			pair(fn, rg.os, ro, rg.ws, &wkStats{positions: 1}, "regression")
+		} else {
+			ctx.Probe("regression-witness-concrete-call", false, rg.fn+" "+c11Wire(rg.os))
+		}
+	}
 	for _, fn := range fns {
 		ps := fn.f.Params()
 		vp := fn.f.VarParam()
@@ -109,7 +189,6 @@ func runC12(ctx *Ctx) {
 				n += ctx.R.Intn(3)
 			}
 			args := make([]cty.Value, n)
-			bad := false
 			for i := range args {
 				p := vp
 				if i < len(ps) {
@@ -117,39 +196,71 @@ func runC12(ctx *Ctx) {
 				}
 				a := c11GenArg(ctx, fn.name, i, *p, false)
 				a, _ = a.UnmarkDeep()
-				if !a.IsWhollyKnown() {
-					bad = true
-				}
 				args[i] = a
 			}
-			if bad {
-				continue
-			}
-			var ro cty.Value
-			var eo error
-			po, _ := try(func() { ro, eo = fn.f.Call(args) })
-			if po || eo != nil {
-				ctx.Tag("concrete:fails")
+			ro, ok := concrete(fn, args)
+			if !ok {
 				continue
 			}
 			okCalls++
-			ctx.Tag("concrete:ok")
-			key := fn.name + " " + c11Wire(args)
-			if !ro.IsWhollyKnown() {
-				ctx.Fail(Failure{Site: "known-in-known-out", Sig: "spontaneous-unknown:" + fn.name, What: "all arguments are wholly known but the result is not",
-					Input: key, GoLit: "stdlib." + fn.name + ".Call(" + c11GoArgs(args) + ")", Outcome: ro.GoString()})
-			}
 			for rep := 0; rep < 3; rep++ {
 				ws, st := weakenTuple(ctx, args, nil, wkOpts{p: 0.22})
 				if st.positions == 0 {
 					continue
 				}
-				var rw cty.Value
-				var ew error
-				pw, pmsg := try(func() { rw, ew = fn.f.Call(ws) })
-				line := "judge.c12 " + c11Wire(args) + " " + c11Wire(ws) + " " + c12Outcome(ro, eo, po) + " " + c12Outcome(rw, ew, pw)
-				pend = append(pend, c12Pending{fn.name, args, ws, ro, rw, eo, ew, po, pw, st, line, pmsg})
+				pair(fn, args, ro, ws, st, "random")
 			}
+		}
+		// structured half (c12gen.go): functions with collection / structural / dynamically typed parameters
+		if !c12HasCollParam(fn.f) && !c12Shaped[fn.name] {
+			continue
+		}
+		sper := ctx.N(40, 600)
+		okCalls = 0
+		for k := 0; k < sper*8 && okCalls < sper; k++ {
+			var args []cty.Value
+			if p, _ := try(func() { args = c12StructArgs(ctx, fn) }); p {
+				ctx.Tag("structured:generator-panic")
+				continue
+			}
+			ro, ok := concrete(fn, args)
+			if !ok {
+				continue
+			}
+			okCalls++
+			for _, w := range c12Systematic(ctx, args, 16) {
+				pair(fn, args, ro, w.ws, w.st, w.scheme)
+			}
+			ws, st := weakenTuple(ctx, args, nil, wkOpts{p: 0.3})
+			if st.positions > 0 {
+				pair(fn, args, ro, ws, st, "random-on-structured")
+			}
+			// near-equal twins (c12gen.go): each has its own concrete call
+			var tws []c12TwinCase
+			if p, _ := try(func() { tws = c12Twins(ctx, fn, args, 6) }); p {
+				ctx.Tag("structured:twin-generator-panic")
+			}
+			for _, tc := range tws {
+				if tro, ok := concrete(fn, tc.os); ok {
+					pair(fn, tc.os, tro, tc.ws, tc.st, tc.scheme)
+				} else {
+					ctx.Tag("twin:concrete-call-fails")
+				}
+			}
+		}
+	}
+	// per-function distribution (starvation must be visible in the evidence)
+	for _, fn := range fns {
+		fs := fstat(fn.name)
+		ctx.res.Dist[fmt.Sprintf("fn:%s pairs", fn.name)] = fs.pairs
+		ctx.res.Dist[fmt.Sprintf("fn:%s pairs-with-nested-unknown", fn.name)] = fs.nested
+		ctx.res.Dist[fmt.Sprintf("fn:%s weakened-call-ok", fn.name)] = fs.wok
+		ctx.res.Dist[fmt.Sprintf("fn:%s weakened-call-ok-known-result", fn.name)] = fs.wok - fs.wunk
+		if fs.pairs == 0 {
+			ctx.Tag("starved-functions")
+		}
+		if c12HasCollParam(fn.f) && fs.nested == 0 {
+			ctx.Tag("collection-functions-without-nested-unknown")
 		}
 	}
 	lines := make([]string, len(pend))
@@ -196,8 +307,28 @@ func runC12(ctx *Ctx) {
 					} else if p.rw.IsKnown() && !p.rw.IsNull() && p.rw.Type().IsCollectionType() && p.ro.IsKnown() && !p.ro.IsNull() &&
 						p.ro.Type().IsCollectionType() && p.rw.LengthInt() > p.ro.LengthInt() {
 						cause = "known-result-longer-than-concrete-result"
+					} else if p.rw.IsKnown() && !p.rw.IsNull() && p.ro.IsKnown() && !p.ro.IsNull() && (p.rw.Type().IsListType() || p.rw.Type().IsTupleType()) &&
+						p.rw.Type().Equals(p.ro.Type()) && p.rw.LengthInt() == p.ro.LengthInt() {
+						// same shape: is it a KNOWN member of the weakened result that differs from the concrete one?
+						ia, ib := p.rw.ElementIterator(), p.ro.ElementIterator()
+						for ia.Next() && ib.Next() {
+							_, a := ia.Element()
+							_, b := ib.Element()
+							if a.IsWhollyKnown() && !a.RawEquals(b) {
+								cause = "known-element-differs"
+							}
+						}
 					}
 				})
+			}
+			if why == "result-not-covered" && cause != "nested-placeholder-type" && p.rw.Type() == cty.Bool && p.rw.IsKnown() && c12EqualsBoundDefect(p.os, p.ws) {
+				// a definite boolean answer built on Value.Equals, and Equals itself shows the recorded C01 defect on this input
+				cause = "equals-false-on-inclusive-bound-of-other-precision"
+			}
+			if why == "result-not-covered" && (strings.HasPrefix(cause, "nested:") || strings.HasPrefix(cause, "top:")) &&
+				p.rw.Type() == cty.Bool && p.rw.IsKnown() && !p.rw.IsNull() && p.ro.Type() == cty.Bool && p.ro.IsKnown() && !p.ro.IsNull() {
+				// both answers are definite and they differ
+				cause = "definite-answer-differs"
 			}
 			ctx.Fail(Failure{Site: "sound", Sig: why + ":" + cause + ":" + p.fn,
 				What:    fmt.Sprintf("%s: the concrete call gives %s, the weakened call does not admit it (%s)", p.fn, p.ro.GoString(), why),
